@@ -33,7 +33,8 @@ def main():
     tier = a[a.index("--tier") + 1] if "--tier" in a else "quick"
     checks = a[a.index("--checks") + 1].split(",") if "--checks" in a else [pid]
     keep = a[a.index("--keep-as") + 1] if "--keep-as" in a else None
-    src = f"/tmp/seed/{pid}/_out"
+    root = os.environ.get("SEED_ROOT", "/tmp/seed")
+    src = f"{root}/{pid}/_out"
     diff, demo, notes = f"{src}/change{n}.diff", f"{src}/demo{n}.py", f"{src}/notes{n}.md"
     wt = tempfile.mkdtemp(prefix="vfseed-")
     os.rmdir(wt)
@@ -43,7 +44,7 @@ def main():
         assert rc == 0, e
         os.makedirs(f"{wt}/_out")
         # the demo asserts the path of its own worktree: rewrite it to this scratch worktree
-        text = open(demo).read().replace(f"/tmp/seed/{pid}", wt)
+        text = open(demo).read().replace(f"{root}/{pid}", wt)
         open(f"{wt}/_out/demo.py", "w").write(text)
         env = dict(os.environ, PYTHONPATH=wt, PYTHONHASHSEED="0")
         rc0, o0, e0, t0 = sh(["/venv/bin/python", "_out/demo.py"], cwd=wt, env=env, timeout=600)
